@@ -32,6 +32,8 @@ def run(ctx: core.Ctx) -> int:
     ctx.rule("TEMPLATE", "k = [abs] floor([abs] (target-held)/h) with a non-negative floored quotient; remainder = target-(held+h*k) "
                          "under |target - it| >= eps, 0 < eps <= 1e-9")
     ctx.rule("READ-ONLY", "the step function assigns no attribute / member")
+    ctx.rule("CHAIN", "every prediction step starts from the newest estimate (held estimate first, then the previous step's result), state and "
+                      "covariance in their own parameters, the control passed on; the newest estimate is what is returned, under its own field names")
     nplans = 0
     # ---- Python
     rel, cls = rtmodel.py_runtime(ctx)
@@ -103,6 +105,7 @@ def run(ctx: core.Ctx) -> int:
                 nplans += 1
                 if not plan.foreign_tests:
                     _check_return(ctx, plan, rel, "ManagedFilter._process_model", "python" + vtag)
+    chain_py(ctx, cls, fn, [v[1] for v in variants] if extras else [body])
     nplans += cpp_part(ctx)
     ctx.floor("STEPPLAN", nplans, 10, "step plans (1 Python + 4 C++ instantiations, 2 directions each)")
     from . import c06 as _c06
@@ -110,6 +113,96 @@ def run(ctx: core.Ctx) -> int:
     mag_gen(ctx)
     return core.finish(ctx, explanation="E5: IR-level symbolic execution of the step functions under direction scenarios, "
                                         "sign analysis + provenance + effects", **META)
+
+
+def py_filter_sigs(ctx):
+    """parameter names of python.ExtendedKalmanFilter.process_model / sensor_model and the record they return (resolved from python.py)"""
+    from .. import estflow
+    pm = ctx.parse("py/formak/python.py")
+    ekf = core.need(core.find_class(pm, "ExtendedKalmanFilter"), "python.ExtendedKalmanFilter")
+    recs = estflow.namedtuples(pm)
+    out = {}
+    for name in ("process_model", "sensor_model"):
+        f = core.need(core.find_func(ekf, name), f"python.ExtendedKalmanFilter.{name}")
+        pos = [a.arg for a in f.args.posonlyargs + f.args.args if a.arg != "self"]
+        kwo = [a.arg for a in f.args.kwonlyargs]
+        def ret_ctors(fn_, depth=0):
+            out_ = set()
+            for r in ast.walk(fn_):
+                if isinstance(r, ast.Return) and isinstance(r.value, ast.Call):
+                    t = ast.unparse(r.value.func)
+                    callee = core.find_func(ekf, t[5:]) if t.startswith("self.") else None
+                    if callee is not None and depth < 4:
+                        out_ |= ret_ctors(callee, depth + 1)      # return self._helper(...): what the helper returns
+                    else:
+                        out_.add(t)
+            return out_
+        rets = ret_ctors(f)
+        rec = [r for r in rets if r in recs]
+        if len(rec) != 1 or len(rets) != 1:
+            raise core.AnalysisError(f"python.ExtendedKalmanFilter.{name} does not return one namedtuple record type (returns {sorted(rets)})")
+        out[name] = (pos, kwo, recs[rec[0]])
+    return out, recs
+
+
+def _fresh_record(fields, origin):
+    from .. import estflow
+    comp = {"state": "state", "covariance": "cov"}
+    return estflow.Sav({f: (estflow.Est(comp[f], True, origin) if f in comp else None) for f in fields})
+
+
+def chain_py(ctx: core.Ctx, cls, fn, bodies):
+    from .. import estflow
+    sigs, recs = py_filter_sigs(ctx)
+    recs = dict(recs)
+    recs.update(estflow.namedtuples(ctx.parse(PYF)))
+    params = [a.arg for a in fn.args.args if a.arg != "self"]
+    ppos, pkwo, prec = sigs["process_model"]
+    where = f"{PYF}:ManagedFilter._process_model [python]"
+    n = 0
+    for body in bodies:
+        fl = estflow.Flow("py", {"@state": "state", "@covariance": "cov", "@current_time": "time"}, recs, impl="@_impl",
+                          predict_roles=ppos, predict_ret=lambda o: _fresh_record(prec, o),
+                          control_param="control" if "control" in params else None, time_params=[params[0]])
+        fl.block(body)
+        for p in fl.problems:
+            ctx.error(f"{where}: {p}")
+        n += len(fl.calls)
+        for v in fl.violations:
+            ctx.oblige("CHAIN", where, v[:70], False, file=PYF, func="ManagedFilter._process_model", construct="chain:" + v.split(":")[0] + ":" + v[-40:], msg=v)
+        for ir, v in fl.returns:
+            ok = isinstance(v, estflow.Tup) and len(v.items) == 2 and isinstance(v.items[0], estflow.TimeV) and isinstance(v.items[1], estflow.Sav)
+            if ok:
+                f = v.items[1].fields
+                ok = all(isinstance(f.get(k), estflow.Est) and f[k].comp == c and f[k].fresh for k, c in (("state", "state"), ("covariance", "cov")))
+            ctx.oblige("CHAIN", where, f"returns {v!r}", ok, file=PYF, func="ManagedFilter._process_model", construct="chain return",
+                       msg=f"the step function returns `{cppast.show(ir)}` = {v!r}; required (target time, record(state = newest state, covariance = newest covariance))")
+        ctx.oblige("CHAIN", where, f"{len(fl.calls)} process_model call(s) start from the newest estimate", not fl.violations, file=PYF,
+                   func="ManagedFilter._process_model", construct="chain ok")
+    ctx.floor("CHAIN", n, 2, "process_model call sites in the Python step function")
+
+
+def chain_cpp(ctx, val, params, body, idx):
+    from .. import estflow
+    control = next((p for p, t in params if "ControlT" in t), None)
+    fl = estflow.Flow("cpp", {"@_state": "whole"}, {}, impl="@_impl", predict_roles=[], predict_ret=lambda o: estflow.Est("pair", True, o),
+                      control_param=control, time_params=[params[0][0]])
+    fl.block(body)
+    func = f"ManagedFilter::processUpdate/{len(params)}"
+    where = f"{HDR}:{func} [C++ {val}]"
+    for p in fl.problems:
+        ctx.error(f"{where}: {p}")
+    for v in fl.violations:
+        ctx.oblige("CHAIN", where, v[:70], False, file=HDR, func=func, construct="chain:" + v.split(":")[0] + ":" + v[-40:], msg=v)
+    for ir, v in fl.returns:
+        ok = isinstance(v, estflow.Tup) and len(v.items) == 2 and isinstance(v.items[0], estflow.TimeV) \
+            and isinstance(v.items[1], estflow.Est) and v.items[1].comp == "pair" and v.items[1].fresh
+        ctx.oblige("CHAIN", where, f"returns {v!r}", ok, file=HDR, func=func, construct="chain return",
+                   msg=f"processUpdate returns `{cppast.show(ir)}` = {v!r}; required {{target time, newest estimate}}")
+    ctx.oblige("CHAIN", where, f"{len(fl.calls)} process_model call(s) start from the newest estimate", not fl.violations, file=HDR, func=func, construct="chain ok")
+    if len(fl.calls) < 2:
+        ctx.error(f"{where}: only {len(fl.calls)} process_model call(s) found")
+    return len(fl.calls)
 
 
 def cpp_part(ctx: core.Ctx) -> int:
@@ -127,6 +220,7 @@ def cpp_part(ctx: core.Ctx) -> int:
         for params, body, line in ent["processUpdate"]:
             seen += 1
             ctx.functions.append(f"ManagedFilter<{val}>::processUpdate({', '.join(t for _, t in params)})")
+            chain_cpp(ctx, val, params, body, seen)
             for sc in ("fwd", "bwd"):
                 for plan in rtmodel.step_plans("cpp", "processUpdate", body, sc, rtmodel.cpp_anchor(params[0][0])):
                     rtmodel.check_stepplan(ctx, plan, HDR, f"ManagedFilter::processUpdate/{len(params)}", f"C++ {val}")
